@@ -152,3 +152,10 @@ Theorem C11_from_dict_boundary_refuted :
   as_dict (from_dict [([97%N], PD [])]) = [([97%N], DList [])] /\
   as_dict (from_dict [([], PV (TInt 1%Z))]) = [].
 Proof. split; vm_compute; reflexivity. Qed.
+
+Example C11_copycopy_independent_instance :
+  exists h1 c, h_copycopy false dm_heap 4 = Some (h1, c) /\
+  same_toklist h1 4 c = Some false /\
+  viewH 3 (mstep (mstep h1 c (MAppend (VS (TStr [90%N])))) c (MDelItem 0%Z)) 4 = viewH 3 dm_heap 4 /\
+  viewH 3 (mstep (mstep h1 c (MAppend (VS (TStr [90%N])))) c (MDelItem 0%Z)) c <> viewH 3 h1 c.
+Proof. eexists. eexists. split; [vm_compute; reflexivity|]. vm_compute. repeat split. discriminate. Qed.
